@@ -25,7 +25,7 @@ def run(tier, seed):
               'designers in suggest / complete loops (batch sizes 1..4, infeasible and duplicate trials fed back, eagle for 80 trials), the '
               'default / centre seeding, DefaultModelInputConverter / TrialToArrayConverter decoding of arbitrary arrays; every suggestion is '
               'checked by an independent membership oracle; refusals must be exceptions; non-trivial = at least 3 suggestions after feedback')
-  rep.trusted = ['Coq 8.16.1 kernel + vm_compute', 'equinox stand-in (GP_UCB_PE / GAUSSIAN_PROCESS_BANDIT are never executed)',
+  rep.trusted = ['harness/translate/scaledispatch.py (Python-ast translator of the dispatch of scaler_from_spec, fail-closed)', 'Coq 8.16.1 kernel + vm_compute', 'equinox stand-in (GP_UCB_PE / GAUSSIAN_PROCESS_BANDIT are never executed)',
                  'harness/spaces.py membership oracle', 'harness/translate/scalers.py and suggdefault.py (Python-ast translators, fail-closed)', 'exact rationals instead of float32/float64 in the model']
   tbroke = None
   try:
@@ -38,6 +38,11 @@ def run(tier, seed):
     C.write_gen('Gen/SuggestDefault.v', suggdefault.translate(C.REPO))
   except Exception as e:  # pylint: disable=broad-except
     tbroke = ((tbroke or '') + ' translator harness/translate/suggdefault.py refused pythia/suggest_default.py: %r' % (e,)).strip()
+  try:
+    from harness.translate import scaledispatch
+    C.write_gen('Gen/ScaleDispatchSrc.v', scaledispatch.translate(C.REPO))
+  except Exception as e:  # pylint: disable=broad-except
+    tbroke = ((tbroke or '') + ' translator harness/translate/scaledispatch.py refused converters/core.py / parameter_config.py: %r' % (e,)).strip()
   C.standard_proof_step(rep, 'C03')
   broke = ((tbroke or '') + ' ' + (rep.proof_broken or '')).strip() or None
   concrete = False
@@ -133,14 +138,49 @@ def run(tier, seed):
         if probs:
           viol('TrialToArrayConverter.to_parameters decoded an array outside the search space: ' + '; '.join(probs)[:200],
                {'options': opts, 'array': row.tolist(), 'space': repr(problem.search_space)[:600], 'decoded': repr(pd)})
+  # CMA-ES fed a history of identical (duplicate) trials for hundreds of rounds: the search distribution collapses; the designer
+  # must keep answering inside the space or refuse, never hand out a suggestion without parameters
+  for hi in range(2 if tier == 'quick' else 6):
+    problem, meta = spaces.gen_space(r, vz, float_only=True, allow_log=False)
+    try:
+      d = cmaes.CMAESDesigner(problem, pop_size=r.choice([4, 6]), seed=r.randrange(1000))
+      fixed_point = None
+      tid = 0
+      for rd in range(360):
+        sug = d.suggest(d._cma_es_jax.hyper_parameters.pop_size)
+        bad_ = [(s, spaces.check_suggestion(meta, pdict(s))) for s in sug]
+        bad_ = [(s, pr) for s, pr in bad_ if pr]
+        if bad_:
+          viol('cmaes, after %d rounds of identical completed trials, suggested outside the search space: %s' % (rd, '; '.join(bad_[0][1])[:200]),
+               {'space': repr(problem.search_space)[:400], 'rounds_of_identical_trials': rd, 'suggestion': repr(pdict(bad_[0][0]))})
+          break
+        if fixed_point is None:
+          fixed_point = dict(pdict(sug[0]))
+        trials = []
+        for s in sug:
+          tid += 1
+          t = vz.Trial(id=tid, parameters=fixed_point)
+          t.complete(vz.Measurement({'m': 1.0}))
+          trials.append(t)
+        d.update(vza.CompletedTrials(trials), vza.ActiveTrials())
+      rep.case({'algorithm': 'cmaes', 'history': 'identical trials', 'space': meta}, True)
+      rep.count('cmaes_identical_history')
+    except Exception as e:  # pylint: disable=broad-except
+      rep.count('refused_cmaes_identical_history_%s' % type(e).__name__)
   # algorithms with restricted spaces
   for si in range(nspace // 3 + 1):
     problem, meta = spaces.gen_space(r, vz, float_only=True, allow_log=False)
+    if si % 2 == 0:
+      # a parameter with a single value next to ordinary ones (its encoding has zero width)
+      problem.search_space.root.add_float_param('fixed', 2.5, 2.5)
+      meta = dict(meta, fixed=('f', (2.5, 2.5)))
     try:
-      d = cmaes.CMAESDesigner(problem)
+      # small populations and enough rounds for several whole populations to be fed back (the evolution state is then updated
+      # from encoded trials, not only sampled)
+      d = cmaes.CMAESDesigner(problem, pop_size=4, seed=r.randrange(1000)) if si % 3 else cmaes.CMAESDesigner(problem)
       tid = 0
-      for rd in range(3):
-        sug = d.suggest(r.choice([1, 3]))
+      for rd in range(7 if si % 3 else 3):
+        sug = d.suggest(r.choice([1, 3]) if not si % 3 else r.choice([2, 4]))
         trials = []
         for s in sug:
           probs = spaces.check_suggestion(meta, pdict(s))
@@ -315,7 +355,7 @@ def run(tier, seed):
   from harness import convmodel
   b3, _ = convmodel.default_cases(rep, tier, r)
   broke = ((broke or '') + ' ' + (b3 or '')).strip() or None
-  concrete = concrete or c2
+  concrete = concrete or c2 or getattr(rep, 'default_seed_concrete', False)
   C.settle_broken(rep, broke, concrete)
   return rep.finish()
 
